@@ -98,6 +98,10 @@ def run(ctx):
                 blocks.append(rng.randint(1, full))        # a short last block
             passes.append(dict(nch=nch, blocks=blocks))
         cases.append(('random', passes))
+    # long passes ("any frame count and block size"): more than a thousand frames in blocks of 10, 12 and 24 frames (sizes that divide no
+    # power of two), followed by a short pass
+    for full, nb in ((10, 130), (12, 100)) + (((24, 90), (7, 300)) if not ctx.quick else ()):
+        cases.append(('long', [dict(nch=3, blocks=[full] * nb + [full // 2]), dict(nch=2, blocks=[4, 3])]))
     for ci, (src, passes) in enumerate(cases):
         rp = []
         for pi, p in enumerate(passes, 1):
